@@ -1086,3 +1086,74 @@ pub open spec fn pe_matches(e: ColorPaletteEntry, d: Seq<u8>, o: int, id: int) -
          },
     ],
 }
+
+# ------------------------------------------------------------------------------------------------
+# read_aseprite: the 128-byte file header, the pixel-ratio / colour-depth refusals and the frame loop (C01, C15)
+# ------------------------------------------------------------------------------------------------
+UNITS["header"] = {
+    "prelude_sections": ["errors", "reader"],
+    "items": [
+        {"kind": "enum", "file": "file", "name": "PixelFormat", "attrs": "#[derive(Clone, Copy, PartialEq, Eq)]\n"},
+        {"kind": "verbatim", "text": """
+#[verifier::external_body] pub struct ColorPalette { _p: core::marker::PhantomData<u8> }
+#[verifier::external_body] pub struct LayersData { _p: core::marker::PhantomData<u8> }
+#[verifier::external_body] pub struct TilesetsById { _p: core::marker::PhantomData<u8> }
+#[verifier::external_body] pub struct CelsDataP { _p: core::marker::PhantomData<u8> }
+#[verifier::external_body] pub struct ExternalFilesById { _p: core::marker::PhantomData<u8> }
+#[verifier::external_body] pub struct Tag { _p: core::marker::PhantomData<u8> }
+#[verifier::external_body] pub struct UserData { _p: core::marker::PhantomData<u8> }
+#[verifier::external_body] pub struct Slice { _p: core::marker::PhantomData<u8> }
+"""},
+        {"kind": "struct", "file": "parse", "name": "ValidatedParseInfo", "keep": None,
+         "rewrites": [("layer::LayersData", "LayersData"), ("cel::CelsData<Pixels>", "CelsDataP"), ("Arc<palette::ColorPalette>", "Arc<ColorPalette>")]},
+        {"kind": "struct", "file": "file", "name": "AsepriteFile", "keep": None,
+         "rewrites": [("CelsData<Pixels>", "CelsDataP"), ("Arc<ColorPalette>", "Arc<ColorPalette>")]},
+        {"kind": "verbatim", "text": """
+/// parser state: abstract here; `new` / `validate` / `parse_frame` under the parts of their contracts this function needs
+#[verifier::external_body] pub struct ParseInfo { _p: core::marker::PhantomData<u8> }
+impl ParseInfo {
+    /// number of frame slots (frame_times.len() == cel table rows)
+    pub uninterp spec fn nframes(&self) -> int;
+    #[verifier::external_body]
+    fn new(num_frames: u16, default_frame_time: u16) -> (r: ParseInfo)
+        ensures r.nframes() == num_frames,
+    { unimplemented!() }
+    #[verifier::external_body]
+    fn validate(self, pixel_format: &PixelFormat) -> (r: Result<ValidatedParseInfo>)
+        ensures r is Ok ==> r->Ok_0.frame_times@.len() == self.nframes(),
+    { unimplemented!() }
+}
+/// parse_frame under the precondition that unit `userdata` proves it needs (a slot for this frame exists)
+#[verifier::external_body]
+fn parse_frame(reader: &mut AseReader, frame_id: u16, pixel_format: PixelFormat, parse_info: &mut ParseInfo) -> (r: Result<()>)
+    requires (frame_id as int) < old(parse_info).nframes(),
+    ensures final(parse_info).nframes() == old(parse_info).nframes(), final(reader).data() == old(reader).data(),
+{ unimplemented!() }
+
+/// file header (128 bytes): size(4) magic(2)=0xA5E0 frames(2) width(2) height(2) depth(2) flags(4) speed(2) 0(4) 0(4)
+/// transparent index(1) ignore(3) colours(2) pixel w(1) pixel h(1) grid(8) reserved(84)
+pub open spec fn depth_ok(depth: int) -> bool { depth == 8 || depth == 16 || depth == 32 }
+pub open spec fn fmt_spec(depth: int, ti: u8) -> PixelFormat {
+    if depth == 8 { PixelFormat::Indexed { transparent_color_index: ti } } else if depth == 16 { PixelFormat::Grayscale } else { PixelFormat::Rgba }
+}
+pub open spec fn ratio_ok(pw: u8, ph: u8) -> bool { pw == 0 || ph == 0 || (pw == 1 && ph == 1) }
+"""},
+        {"kind": "fn", "file": "parse", "name": "parse_pixel_format", "ret": "r", "rules": ["R1", "R6", "R11"],
+         "ensures": "        r is Ok <==> depth_ok(color_depth as int),\n        r is Ok ==> r->Ok_0 == fmt_spec(color_depth as int, transparent_color_index),"},
+        {"kind": "fn", "file": "parse", "name": "read_aseprite", "ret": "r", "rules": ["R1", "R6", "R11"],
+         "sig_rewrites": [("<R: Read>", ""), ("input: R", "input: AseReader")],
+         "body_rewrites": [("let mut reader = AseReader::with(input);", "let mut reader = input;")],
+         "requires": "        input.pos() == 0,",
+         "ensures": ("        ({ let d = input.data();\n"
+                     "           &&& r is Ok ==> d.len() >= 128 && le_u16(d, 4) == 0xA5E0 && ratio_ok(d[34], d[35]) && depth_ok(le_u16(d, 12))\n"
+                     "           &&& r is Ok ==> ({ let f = r->Ok_0;\n"
+                     "                &&& f.num_frames as int == le_u16(d, 6) && f.width as int == le_u16(d, 8) && f.height as int == le_u16(d, 10)\n"
+                     "                &&& f.pixel_format == fmt_spec(le_u16(d, 12), d[28])\n"
+                     "                &&& f.frame_times@.len() == f.num_frames })\n"
+                     "           // C15: a pixel aspect ratio other than 1:1 and unknown colour depths are refused\n"
+                     "           &&& d.len() >= 128 && !ratio_ok(d[34], d[35]) ==> r is Err\n"
+                     "           &&& d.len() >= 128 && !depth_ok(le_u16(d, 12)) ==> r is Err }),"),
+         "loops": {1: ("        invariant\n"
+                       "            parse_info.nframes() == num_frames, reader.data() == input.data(),")}},
+    ],
+}
